@@ -43,3 +43,7 @@ def run(ctx, rep):
     rch = rep.rule("chain", "file -> lines -> framing -> routing -> dispatcher -> note builder", floor=10)
     from .chain import check_chain
     check_chain(ctx, rch, "instrument", strict=True)
+    rd = rep.rule("defaults", "omitted bounds are None; the un-hinted query starts its scan at 0", floor=3)
+    from .lib import check_param_defaults
+    check_param_defaults(ctx, rd, "chartparse.chart.Chart.notes_per_second", {"start": None, "end": None})
+    check_param_defaults(ctx, rd, "chartparse.sync.BPMEvents.timestamp_at_tick", {"start_iteration_index": 0})
